@@ -1,5 +1,6 @@
 (* Statement pins for the codec area. *)
-From FlacCodec Require Import Wf Spec Stream Progress Props_codec.
+From FlacCodec Require Import Wf Spec Stream Progress EncChoice Damage Props_codec.
+From FlacBase Require Import Crc.
 Open Scope N_scope.
 Check (C17_parse_inverts_write : forall si f bytes rest,
   wf_frame si f = true -> write_frame f = Some bytes -> struct_frame si (bytes ++ rest) = Ok (f, rest)).
@@ -16,3 +17,10 @@ Check (C03_decoder_follows_format : forall si chk f bytes rest,
 Check (C02_reference_decoder_accepts : forall si f bytes rest,
   wf_frame si f = true -> spec_frame f = true -> write_frame f = Some bytes ->
   spec_decode si (bytes ++ rest) = Ok (sem_frame f, rest)).
+Check (C19_subframe_bound : forall bps xs fixed lpc,
+  (1 <= length xs)%nat -> 1 <= bps -> (forall w, common_wasted xs = Some w -> w < bps) ->
+  sf_bits bps (enc_subframe bps xs fixed lpc) <= 8 + N.of_nat (length xs) * bps).
+Check (C05_flipped_frame_rejected : forall si chk bytes h c rest i k h' c' rest',
+  Forall byte bytes -> dec_frame si chk bytes = Ok (h, c, rest) ->
+  (i < length bytes - length rest)%nat -> k < 8 ->
+  dec_frame si chk (flip16 bytes i k) = Ok (h', c', rest') -> length rest' <> length rest).
